@@ -31,15 +31,19 @@ theorem enabled_nil_iff (s : St) :
     | none => simp
     | some wk => simp [h2 w wk hw]
 
-theorem wsum_zero_of_empty (x : Nat) (ws : List Worker)
-    (h : ∀ (w : Nat) (wk : Worker), ws[w]? = some wk → wk.queue = []) : wsum x ws = 0 := by
-  unfold wsum
+theorem wsumK_zero_of_empty (κ : Key) (ws : List Worker)
+    (h : ∀ (w : Nat) (wk : Worker), ws[w]? = some wk → wk.queue = []) : wsumK κ ws = 0 := by
+  unfold wsumK
   induction ws with
   | nil => rfl
   | cons a l ih =>
     have ha := h 0 a (by simp)
     have := ih (fun w wk hw => h (w + 1) wk (by simpa using hw))
     simp [ha, this]
+
+theorem wsum_zero_of_empty (x : Nat) (ws : List Worker)
+    (h : ∀ (w : Nat) (wk : Worker), ws[w]? = some wk → wk.queue = []) : wsum x ws = 0 :=
+  wsumK_zero_of_empty (runKey x) ws h
 
 theorem qsum_zero_of_empty (s : St)
     (h : ∀ (w : Nat) (wk : Worker), s.workers[w]? = some wk → wk.queue = []) : qsum s = 0 := by
